@@ -53,6 +53,9 @@ def wire_rules(ctx, R, verbs=True):
             ctx.notice("W8", "%s is memoised; its result depends on the value of its arguments only" % f.qualname)
     if not memo:
         ctx.holds("W8", "no memoised function in %s" % R.module.relpath)
+    # what one call (one client) sends must not depend on the calls before it: no mutable default shared by all calls (SD1)
+    from .shared_default import shared_defaults
+    shared_defaults(ctx, {"managesieve", "digest_md5"})
     fmt = R.formatter
     if fmt is None:
         raise AnalysisError("W", "argument formatter not identified (method called by the sender that loops over the arguments)")
@@ -652,7 +655,11 @@ def w9(ctx, R, fmt=None, snd=None, rule="W9"):
                 sizes.add(cv_.v)
     boundary = [[b"x" * (L - 7)] for k_ in sorted(sizes)[:3] for L in (k_ - 2, k_ - 1, k_, k_ + 1, 2 * k_ - 1, 2 * k_) if L - 7 > 0]
     for args in [None, [b"a"], [b"a", b"b", b"c"], [b"a", b"b \t  c  "], [b" "], [b"a", b"keep;\r\n"], [b"\r\n"]] + boundary:
-        for extra in ((None, [b"x", b"yy"]) if pextra else (None,)):
+        # "no extra lines" is the parameter's own default (None in one spelling, an empty list in another)
+        dflt_extra = None
+        if pextra and isinstance(snd.defaults().get(pextra), (ast.List, ast.Tuple)) and not snd.defaults()[pextra].elts:
+            dflt_extra = []
+        for extra in ((dflt_extra, [b"x", b"yy"]) if pextra else (None,)):
             def oracle(interp, e, name, recv, a, kw, st):
                 if name == "self." + fmt.name or (name and mangle(R.cls.name, name[5:]) == fmt.name):
                     v = a[0] if a else None
@@ -727,7 +734,7 @@ def w9(ctx, R, fmt=None, snd=None, rule="W9"):
                 it = fd.Interp(snd.node, R.cls.name, oracle2, resolve=module_resolver(ctx.program, R.module))
                 env = {pname: fd.Const(verb_), pargs: fd.Const(shared)}
                 if pextra:
-                    env[pextra] = fd.Const(None)
+                    env[pextra] = fd.Const(dflt_extra if dflt_extra is None else list(dflt_extra))
                 for q, v_ in zip(bools, combo):
                     env[q] = fd.Const(v_)
                 for a_, v_ in zip(flags, combo[len(bools):]):
